@@ -388,7 +388,9 @@ func checkC08(rc *RunCtx, sc *C1, out *C1Outcome) {
 	}
 	if success {
 		related := ""
-		if !frameAnswersRequest(sc, out.Consumed) {
+		if len(out.Consumed) == 0 {
+			related = "|nothing_was_read"
+		} else if !frameAnswersRequest(sc, out.Consumed) {
 			// what was accepted does not even carry the request's transaction id / unit id / function code
 			related = "|frame_unrelated_to_request"
 		}
